@@ -260,8 +260,8 @@ Proof.
   - rewrite (fold28_app _ _ _ _ _ F1). apply fold28_nonsec.
     unfold reset_phy. destruct (c_phy c); reflexivity.
   - split; [|split; [reflexivity|exact Q1]].
-    apply R_off; cbn [sc set_deferred set_st]; rewrite ?Hs2; auto.
-    unfold secflags_off in *. cbn [sc set_deferred set_st]. rewrite Hs2. exact O1.
+    apply R_off; cbn [sc set_deferred set_st set_adv_ch]; rewrite ?Hs2; auto.
+    unfold secflags_off in *. cbn [sc set_deferred set_st set_adv_ch]. rewrite Hs2. exact O1.
 Qed.
 
 (* ========================================================================================== end_event *)
